@@ -60,6 +60,20 @@ func hx(s string) []byte {
 
 func in(id string, data []byte) Input { return Input{ID: id, Data: data} }
 
+// noise returns n bytes of a fixed xorshift sequence: deflate cannot shrink them, so a compressed frame
+// of n payload bytes is itself longer than n bytes.
+func noise(n int) []byte {
+	b := make([]byte, n)
+	x := uint32(0x9E3779B9)
+	for i := range b {
+		x ^= x << 13
+		x ^= x >> 17
+		x ^= x << 5
+		b[i] = byte(x >> 11)
+	}
+	return b
+}
+
 // pattern returns n non-zero, non-repeating-looking bytes (a partial fill is always visible).
 func pattern(n int) []byte {
 	b := make([]byte, n)
@@ -129,6 +143,19 @@ func frames(compression bool, deflate func(n int) bool) []Input {
 			out = append(out, in(name, data))
 		}
 	}
+	// size classes (see sizeDocs): id 1, an incompressible payload (the compressed body is as long as the payload)
+	for _, n := range sizeClasses() {
+		payload := noise(n)
+		name := fmt.Sprintf("id=1,payload=size=%d-incompressible", n)
+		switch {
+		case !compression:
+			out = append(out, in(name, refframe.AppendPlain(nil, 1, payload)))
+		case deflate(n):
+			out = append(out, in(name+",deflated", refframe.AppendCompressionMode(nil, 1, payload, true)))
+		default:
+			out = append(out, in(name+",stored", refframe.AppendCompressionMode(nil, 1, payload, false)))
+		}
+	}
 	return out
 }
 
@@ -188,11 +215,17 @@ func wireReadOps() []*ReadOp {
 		}
 		strs = append(strs, in(fmt.Sprintf("%q", id), refwire.AppendString(nil, s)))
 	}
+	for _, n := range sizeClasses() {
+		strs = append(strs, in(fmt.Sprintf("size=%d", n), refwire.AppendString(nil, text(n))))
+	}
 	add(rf[pk.String]("String", strs...))
 	add(rf[pk.Identifier]("Identifier", in("minecraft:stone", refwire.AppendString(nil, "minecraft:stone")), in("a:b", refwire.AppendString(nil, "a:b"))))
 	var bas []Input
 	for _, n := range []int{0, 1, 3, 11, 130, 300} {
 		bas = append(bas, in(fmt.Sprintf("len=%d", n), refwire.AppendByteArray(nil, pattern(n))))
+	}
+	for _, n := range sizeClasses() {
+		bas = append(bas, in(fmt.Sprintf("size=%d", n), refwire.AppendByteArray(nil, pattern(n))))
 	}
 	add(rf[pk.ByteArray]("ByteArray", bas...))
 	add(&ReadOp{Name: "ByteArray.ReadFrom[reused-buffer]", Inputs: bas, Run: func(r io.Reader) (any, int64, error) {
@@ -202,7 +235,19 @@ func wireReadOps() []*ReadOp {
 	}})
 	add(rf[pk.BitSet]("BitSet", in("0-longs", refwire.AppendBitSet(nil, nil)), in("1-long", refwire.AppendBitSet(nil, []int64{0x0102030405060708})),
 		in("2-longs", refwire.AppendBitSet(nil, []int64{-2, 0x1122334455667788})), in("3-longs", refwire.AppendBitSet(nil, []int64{1, -1, 0x0102030405060708}))))
-	for _, bits := range []int64{8, 20, 64, 128} {
+	sizedBits := []int64{8, 20, 64, 128}
+	for _, n := range sizeClasses() {
+		sizedBits = append(sizedBits, int64(n)*8)
+		longs := make([]int64, n/8)
+		for i := range longs {
+			longs[i] = int64(i+1) * 0x0101010101010101
+		}
+		ops = append(ops, rf[pk.BitSet](fmt.Sprintf("BitSet[size=%d]", n), in("longs", refwire.AppendBitSet(nil, longs))))
+		ops[len(ops)-1].Class = "BitSet.ReadFrom"
+		ops = append(ops, aryOp[pk.VarInt, pk.Int](fmt.Sprintf("Ary[VarInt]<Int>[size=%d]", n), in("ints", append(refwire.AppendVarInt(nil, int32(n/4)), pattern(n/4*4)...))))
+		ops[len(ops)-1].Class = "Ary[VarInt]<Int>.ReadFrom"
+	}
+	for _, bits := range sizedBits {
 		bits := bits
 		nbytes := int((bits + 7) / 8)
 		add(&ReadOp{Name: fmt.Sprintf("FixedBitSet[%d].ReadFrom", bits), Class: "FixedBitSet.ReadFrom", Inputs: []Input{in("pattern", pattern(nbytes)), in("ff", bytes.Repeat([]byte{0xff}, nbytes))},
@@ -215,6 +260,9 @@ func wireReadOps() []*ReadOp {
 	var pmd []Input
 	for _, n := range []int{0, 1, 5, 12, 600} {
 		pmd = append(pmd, in(fmt.Sprintf("len=%d", n), pattern(n)))
+	}
+	for _, n := range sizeClasses() {
+		pmd = append(pmd, in(fmt.Sprintf("size=%d", n), pattern(n)))
 	}
 	o := rf[pk.PluginMessageData]("PluginMessageData", pmd...)
 	o.ToEOF = true
